@@ -46,24 +46,45 @@ class Table:
 
 
 class Case:
-    """script = list of step tokens; phases = per R step: (files at that time, fresh library?, label)"""
+    """script = list of step tokens; phases = per R step: (flat files at that time, fresh library?, label).
+    With `dirs` (file name -> directory) the files are written spread over sub-directories, every import URL
+    rewritten relative to its importer (ig.lay_out); the ground truth is always that of the flat graph."""
 
-    def __init__(self, label, kind):
+    def __init__(self, label, kind, dirs=None, styles=None):
         self.label = label
         self.kind = kind
         self.steps = []
         self.phases = []
-        self.files = {}
+        self.files = {}          # flat
+        self.laid = {}           # real path -> doc, as written
         self.group = False
         self.fresh = True
+        self.dirs = dirs
+        self.styles = styles
 
     def write_files(self, table, files):
-        for f in sorted(set(self.files) - set(files)):
+        if self.dirs is None:
+            laid, keys = dict(files), None
+        else:
+            laid = ig.lay_out(files, self.dirs, self.styles)
+            keys = ig.spelled_keys(laid)
+            if keys is None:
+                raise ValueError("layout not fitted to this graph (see fit_layout): " + self.label)
+            if not self.steps:
+                self.steps += ["M:" + d for d in ig.DIRS if d]
+        for f in sorted(set(self.laid) - set(laid)):
             self.steps.append("D:" + f)
-        for f in sorted(files):
-            if self.files.get(f) != files[f]:
-                self.steps.append("W:%s:%s" % (f, table.add(files[f], self.group)))
+        for f in sorted(laid):
+            if self.laid.get(f) != laid[f]:
+                self.steps.append("W:%s:%s" % (f, table.add(laid[f], self.group)))
+        if keys is not None:
+            self.steps.append("KC")
+            for k in sorted(keys):
+                real = keys[k]
+                if real is not None and real != k and real in laid:
+                    self.steps.append("K:%s:%s" % (k, table.add(laid[real], self.group)))
         self.files = dict(files)
+        self.laid = laid
 
     def new_importer(self, strict):
         self.steps.append("N:%d" % (1 if strict else 0))
@@ -87,12 +108,32 @@ class Case:
 
     def to_json(self):
         return {"label": self.label, "kind": self.kind, "script": self.line(),
+                "directories": self.dirs,
+                "files_as_written": {f: ig.abstract_text(d, self.group) for f, d in sorted(self.laid.items())},
                 "phases": [{"label": lb, "fresh": fr,
                             "files": {f: ig.abstract_text(d, self.group) for f, d in sorted(fs.items())}} for fs, fr, lb in self.phases]}
 
 
-def base_case(table, files, strict, label, group=False):
-    c = Case(label, "base")
+def laid_out(rng, files):
+    """(dirs, styles) of a random layout of the graph over ig.DIRS"""
+    return ig.random_layout(files, rng), ig.random_styles(files, rng)
+
+
+def fit_layout(layout, graphs):
+    """the layout if every graph of the case (faulted, repaired) can be written with it -- the un-normalised keys stay
+    finite --, else the same directories with the shortest spellings, else None (the case is run in one directory):
+    a fault may close a cycle of files across directories, whose '../' spellings would grow for ever"""
+    if layout is None:
+        return None
+    dirs, styles = layout
+    for st in (styles, None):
+        if all(ig.spelled_keys(ig.lay_out(g, dirs, st)) is not None for g in graphs):
+            return (dirs, st)
+    return None
+
+
+def base_case(table, files, strict, label, group=False, layout=None):
+    c = Case(label, "base", *(fit_layout(layout, [files]) or (None, None)))
     c.group = group
     c.write_files(table, files)
     c.new_importer(strict)
@@ -102,10 +143,10 @@ def base_case(table, files, strict, label, group=False):
     return c
 
 
-def fault_case(table, good, bad, strict, label):
+def fault_case(table, good, bad, strict, label, layout=None):
     """fault -> resolve fails -> file repaired -> resolve again on the same importer / after removeAllModels /
     on a fresh importer"""
-    c = Case(label, "fault")
+    c = Case(label, "fault", *(fit_layout(layout, [good, bad]) or (None, None)))
     c.write_files(table, bad)
     c.new_importer(strict)
     c.parse()
@@ -312,7 +353,14 @@ def run_drivers(ctx, drv, mdl, table, cases, tag, fixes=""):
 def build_cases(ctx, table):
     quick = ctx.quick()
     cases = []
-    hist = {"base": 0, "fault": 0, "backedge": 0, "random": 0, "twin": 0, "grouped": 0}
+    hist = {"base": 0, "fault": 0, "backedge": 0, "random": 0, "twin": 0, "grouped": 0, "child_order": 0,
+            "spread_over_directories": 0}
+    import random as _random
+    lrng = _random.Random(ctx.seed * 7919 + 17)        # layouts: directories and URL spellings
+
+    def lay(g):
+        hist["spread_over_directories"] += 1
+        return laid_out(lrng, g)
     nfiles, budget = (3, 4) if quick else (4, 5)
     graphs = ig.enumerate_graphs(nfiles, budget)
     resolvable = []
@@ -328,16 +376,30 @@ def build_cases(ctx, table):
         hist["base"] += 1
         if t.resolvable and not t.file_revisit:
             resolvable.append((n, g))
+            for k in range(2):
+                cases.append(base_case(table, g, (n + k) % 2 == 0, "enum%d/dirs%d" % (n, k), layout=lay(g)))
+        elif n % 5 == 1 and not t.local_units_cycle:
+            cases.append(base_case(table, g, n % 2 == 0, "enum%d/dirs" % n, layout=lay(g)))
     # single faults x repair on the resolvable graphs
+    nf = 0
     for n, g in resolvable:
         for label, bad in ig.single_faults(g):
             both = label.startswith("trunc") or label.startswith("notcellml")
             for strict in ((True, False) if both else (n % 2 == 0,)):
-                cases.append(fault_case(table, g, bad, strict, "enum%d/%s/%s" % (n, label, "strict" if strict else "lax")))
+                nf += 1
+                cases.append(fault_case(table, g, bad, strict, "enum%d/%s/%s" % (n, label, "strict" if strict else "lax"),
+                                        layout=lay(g) if nf % 2 == 0 else None))
                 hist["fault"] += 1
         for label, bad in ig.back_edges(g):
-            cases.append(fault_case(table, g, bad, n % 2 == 0, "enum%d/%s" % (n, label)))
+            nf += 1
+            cases.append(fault_case(table, g, bad, n % 2 == 0, "enum%d/%s" % (n, label),
+                                    layout=lay(g) if nf % 2 == 0 else None))
             hist["backedge"] += 1
+    # several children in every order, the cycle-closing edge in every position (flat, and spread over directories)
+    for label, g in ig.child_order_graphs():
+        cases.append(base_case(table, g, True, label))
+        cases.append(base_case(table, g, False, label + "/dirs", layout=lay(g)))
+        hist["child_order"] += 2
     # grouped <import> elements (shared ImportSource objects)
     for n, g in resolvable[: (200 if quick else 2000)]:
         cases.append(base_case(table, g, True, "enum%d/grouped" % n, group=True))
@@ -356,13 +418,15 @@ def build_cases(ctx, table):
                             twin=rng.choice([0.0, 0.0, 0.2]))
         if not ig.is_model(g.get(ORIGIN)):
             continue
-        cases.append(base_case(table, g, rng.random() < 0.5, "rand%d" % n, group=rng.random() < 0.3))
+        cases.append(base_case(table, g, rng.random() < 0.5, "rand%d" % n, group=rng.random() < 0.3,
+                               layout=lay(g) if n % 5 in (1, 3) else None))
         hist["random"] += 1
         if n % 5 == 0:
             faults = list(ig.single_faults(g))
             if faults:
                 label, bad = rng.choice(faults)
-                cases.append(fault_case(table, g, bad, rng.random() < 0.5, "rand%d/%s" % (n, label)))
+                cases.append(fault_case(table, g, bad, rng.random() < 0.5, "rand%d/%s" % (n, label),
+                                        layout=lay(g) if n % 10 == 0 else None))
                 hist["fault"] += 1
     hist["enumerated_with_local_units_cycle_not_run"] = nskip
     return cases, hist, (nfiles, budget, len(graphs), len(resolvable))
@@ -402,9 +466,12 @@ def run_paths(ctx, drv, mdl):
 def run(ctx):
     ctx.proofs()
     ctx.assumptions += [
-        "A-fs: the importer's view of the file system is a finite map from library key to bytes; every generated file "
-        "lives in one directory and every import URL is a plain file name (URL resolution relative to sub-directories, "
-        "'..' segments and absolute URLs are outside the model; pathFromUrl/resolvePath are compared separately)",
+        "A-fs: the importer's view of the file system is a finite map from library key AS SPELLED (base directory of the "
+        "importing file + URL as written; the code normalises nothing but the directory separator) to bytes; which spellings "
+        "reach which file is decided by the OS and computed by the generator (ig.spelled_keys); graphs are run in one "
+        "directory and spread over sub-directories of depth 0-2 with relative URLs ('sub/f', '../f', './f', 'x/../f'); the "
+        "origin file stays in the base directory; absolute URLs and fetchModel's first look-up under the raw URL are outside "
+        "the model",
         "only CellML 2.0 files: the non-strict importer's MESSAGE issue for transformed 1.x files is not modelled",
         "libxml2 decides what is well-formed XML; the model takes the class (not XML / XML but not CellML / model with "
         "errors attached to entities) from the generator, and the correspondence run checks that classification",
